@@ -6,6 +6,13 @@ from .grammar import Grammar, Rule, Term, simple
 
 STACK_SITE = 'site:context_parse/cvector-stack@cstring_buffer'
 
+def stack_finding_applies(g, tb, data, opt=0):
+    """the recorded finding D6 covers exactly the inputs whose parse needs more stack entries than the documented
+    capacity N + (number of empty rules) + 1 of cstring_buffer<N> (N = text length + 1); an overflow below that is new"""
+    ex = model.expect(g, tb, data, skip_ws=not (opt & 1), skip_nl=not (opt & 2))
+    cap = (len(data) + 1) + sum(1 for r in g.rules if len(r.rhs) == 0) + 1
+    return ex.res.maxdepth > cap
+
 def strip_caps(diag_text):
     t = re.sub(r'Parser object size: \d+\n', '', diag_text)
     t = re.sub(r'\(cap: \d+\)', '', t)
@@ -185,7 +192,7 @@ def stack_worker(spec):
         rc, so, se, to = common.run(exe, timeout=300)
         text = so.decode('latin-1')
         if 'END' not in text:
-            out['viol'].append((['input:' + g.key(), STACK_SITE], 'grammar %s: parsing cstring_buffer inputs aborted rc=%s: %s %s' % (g.text(), rc, text[-200:], se.decode('latin-1', 'replace')[-500:]), {'grammar': g.to_json()}))
+            out['viol'].append((['input:' + g.key()], 'grammar %s: parsing cstring_buffer inputs aborted rc=%s: %s %s' % (g.text(), rc, text[-200:], se.decode('latin-1', 'replace')[-500:]), {'grammar': g.to_json()}))
         threw = None
         for ln in text.split('\n'):
             p = ln.split()
@@ -196,7 +203,7 @@ def stack_worker(spec):
                 C['evaluations'] += 1; C['fixed_stack_parses'] += 1
                 out['distinct'].append(common.sha(g.key(), d)[:12])
                 if a != b:
-                    keys = ['input:' + common.sha(g.key(), d)[:16]] + ([STACK_SITE] if threw and 'capacity' in threw else [])
+                    keys = ['input:' + common.sha(g.key(), d)[:16]] + ([STACK_SITE] if threw and 'capacity' in threw and stack_finding_applies(g, tb, d) else [])
                     out['viol'].append((keys, 'grammar %s input %r (%d bytes): parse through cstring_buffer gives %d (%s), through string_buffer %d' % (g.text(), d, len(d), a, threw, b), {'grammar': g.to_json(), 'input': d.hex()}))
                 threw = None
         out['samples'].append({'grammar': g.text(), 'inputs': [d.decode('latin-1') for d in inputs[:4]]})
